@@ -10,7 +10,7 @@ after every call it explores ALL maximal runs of internal steps (`SSV.Pipe.succs
 then filters by the observations.  Answer `ok <k>` = k candidate states remain; `reject …` = the implementation
 did something no interleaving of the model can do.
 
-lines:  new <nthreads> | call <t> <end> r <cap> | call <t> <end> w <hex> | call <t> <end> wt <ff:0|1> <cap,cap,…|->
+lines:  new <nthreads> | nq call <t> <end> w <hex> (start only, no quiescence) | call <t> <end> r <cap> | call <t> <end> w <hex> | call <t> <end> wt <ff:0|1> <cap,cap,…|->
         call <t> <end> cr|cw|c|cre|cwe | call <t> <end> srd|swd|sd <zero|future|past> | advance
         ret <t> <n> <err> | pend <t> | stream <dir> <hex> | quiet
 -/
@@ -50,11 +50,11 @@ def Cand.dir (c : Cand) (d : Nat) : State := if d == 0 then c.d0 else c.d1
 def Cand.setDir (c : Cand) (d : Nat) (s : State) : Cand := if d == 0 then { c with d0 := s } else { c with d1 := s }
 
 /-- start `op` by thread `t` in direction `d` of every candidate and run to quiescence -/
-def startIn (ds : DState) (t d : Nat) (op : Op) : List Cand :=
+def startIn (ds : DState) (t d : Nat) (op : Op) (q : Bool := true) : List Cand :=
   dedupC ds.n <| ds.cands.flatMap fun c =>
     match start (c.dir d) t op with
     | none => []
-    | some s => (quiesce ds.n [s] []).map (c.setDir d)
+    | some s => (if q then quiesce ds.n [s] [] else [s]).map (c.setDir d)
 
 def errName : RErr → String
   | .nil => "nil" | .eof => "eof" | .closedPipe => "closed" | .timeout => "timeout" | .sink => "sink"
@@ -100,6 +100,11 @@ def stepC15 (ds : DState) (line : String) : DState × String :=
   | ["call", t, e, "wt", ff, plan] => match t.toNat?, e.toNat?, parsePlan plan with
       | some t, some e, some plan =>
           answer { ds with where_ := setWhere t (1 - e) false } (startIn ds t (1 - e) (.writeTo plan (ff == "1"))) "thread-busy"
+      | _, _, _ => (ds, "bad-op")
+  | ["nq", "call", t, e, "w", hex] => match t.toNat?, e.toNat?, ofHex? hex with
+      -- a Write issued WITHOUT waiting for quiescence (it queues behind wrMu): its steps interleave with the next call's
+      | some t, some e, some b =>
+          answer { ds with where_ := setWhere t e false } (startIn ds t e (.write b) false) "thread-busy"
       | _, _, _ => (ds, "bad-op")
   | ["call", t, e, "w", hex] => match t.toNat?, e.toNat?, ofHex? hex with
       | some t, some e, some b =>
